@@ -539,7 +539,7 @@ pub fn run(eng: &mut Engine) {
         );
     }
     // 5. random, boundary-biased
-    let cases = eng.tier.pick(1_200_000u64, 40_000_000u64);
+    let cases = eng.tier.pick(6_000_000u64, 40_000_000u64);
     eng.random(
         "random-wide",
         RandomSpec { cases, max_tape: 48 },
